@@ -657,10 +657,13 @@ func ParseLines(pkg, path string, lines []Line) (*File, error) {
 				return nil, fmt.Errorf("%s: trusted needs a reason", l.pos)
 			}
 		case "uses":
-			if curLemma == nil {
-				return nil, fmt.Errorf("%s: uses outside lemma", l.pos)
+			if curLemma != nil {
+				curLemma.Uses = append(curLemma.Uses, strings.Fields(rest)...)
+			} else if cur != nil {
+				cur.Uses = append(cur.Uses, strings.Fields(rest)...)
+			} else {
+				return nil, fmt.Errorf("%s: uses outside lemma/func", l.pos)
 			}
-			curLemma.Uses = append(curLemma.Uses, strings.Fields(rest)...)
 		case "witness":
 			if cur != nil {
 				cur.Witnesses = append(cur.Witnesses, rest)
@@ -806,6 +809,11 @@ func parseFuncHeader(kw, rest string, pos Position) (*FuncSpec, error) {
 			return nil, fmt.Errorf("%s: bad receiver in %q", pos, rest)
 		}
 		i = j + 2
+	} else if j := strings.Index(rest, ")."); j >= 0 {
+		// qualified method: pkg/path.(*T).Name
+		if o := strings.Index(rest, ".("); o >= 0 && o < j && !strings.ContainsAny(rest[:j], " \t") {
+			i = j + 2
+		}
 	}
 	k := strings.IndexAny(rest[i:], "( \t")
 	if k >= 0 {
